@@ -16,6 +16,7 @@ from c10 import unit_c10_faults, unit_c10_filename  # noqa: F401
 from c18 import unit_c18_family, unit_c18_attr, unit_c18_routes, unit_c11_foreign  # noqa: F401
 from c19 import unit_c19, unit_c19_model  # noqa: F401
 from c16 import unit_c16  # noqa: F401
+from c17 import unit_c17_leftovers  # noqa: F401
 from c08 import unit_c08_trace, unit_c08_crash, unit_c08_unserialisable  # noqa: F401  # noqa: F401  (work units)
 
 _md = None
